@@ -194,13 +194,35 @@ def extract(facts, rep):
     b = one(r'^yui_link::link::crossing::Crossing::mirror$')
     rep.saw(b)
     T['crossing_mirror_ok'] = False
+    # by value: per crossing type, the type field of the returned crossing (a literal variant on a path that matched on
+    # self.ctype, or CrossingType::mirror(self.ctype), read through the T4 table of that function) and the edges field
+    from symex import project as _project
+    got = {}
+    edges_ok = True
+    unknown_m = False
     for p in SymEx(b).run():
+        if p.end != 'return':
+            continue
         r = p.ret
-        if p.end == 'return' and r[0] == 'adt' and r[1].endswith('crossing::Crossing'):
-            d = dict(zip(r[3], r[4]))
-            c, e = d.get('ctype'), d.get('edges')
-            T['crossing_mirror_ok'] = (c[0] == 'call' and c[1].endswith('CrossingType::mirror') and strip(c[2][0]) == ('field', ('deref', ('arg', 1)), 'ctype')
-                                       and strip(e) == ('field', ('deref', ('arg', 1)), 'edges'))
+        c, e = strip(_project(r, 'ctype')), strip(_project(r, 'edges'))
+        es = sk(e).replace('&', '').replace('*', '')
+        if es not in ('arg1.edges', 'clone(arg1).edges'):
+            edges_ok = False
+        k = None
+        for ev_ in p.branches():
+            s_ = sk(ev_.term).replace('&', '').replace('*', '')
+            if s_ in ('discr(arg1.ctype)', 'discr(clone(arg1).ctype)') and isinstance(ev_.value, int):
+                k = TYPES[ev_.value]
+        if c[0] == 'call' and c[1].endswith('CrossingType::mirror') and sk(c[2][0]).replace('&', '').replace('*', '') in ('arg1.ctype', 'clone(arg1).ctype'):
+            for t_ in ([k] if k else TYPES):
+                got[t_] = 'mirror(%s)' % t_
+        elif c[0] == 'adt' and c[2] in TYPES and k is not None:
+            got[k] = c[2]
+        else:
+            unknown_m = True
+    T['crossing_mirror_map'] = got
+    T['crossing_mirror_ok'] = (not unknown_m) and edges_ok and set(got) == set(TYPES)
+    T['crossing_mirror_unknown'] = unknown_m or set(got) != set(TYPES)
     # sign table
     bs = facts.find(r'^yui_link::link::link::Link::crossing_signs::\{closure#\d+\}::\{closure#\d+\}$')
     T['sign'] = {}
@@ -562,10 +584,13 @@ def check_tables(T, rep):
     else:
         V('E7.T4-mirror', inst, 'CrossingType::mirror is %s; expected X<->Xm with V, H fixed' % m, where=w_cross)
     inst = 'Crossing::mirror|mirrors type, keeps edges'
-    if T['crossing_mirror_ok']:
-        rep.ok('E7.T4-mirror', inst, 'Crossing{ctype: ctype.mirror(), edges: edges.clone()}')
+    cm = {k: (m.get(k) if v == 'mirror(%s)' % k else v) for k, v in T.get('crossing_mirror_map', {}).items()}
+    if T['crossing_mirror_ok'] and cm == m:
+        rep.ok('E7.T4-mirror', inst, 'type -> %s, edges kept' % cm)
+    elif T.get('crossing_mirror_unknown'):
+        rep.indet('E7.T4: Crossing::mirror outside the recognised fragment: %s' % T.get('crossing_mirror_map'))
     else:
-        V('E7.T4-mirror', inst, 'Crossing::mirror no longer is {ctype: self.ctype.mirror(), edges: self.edges.clone()}', where=w_cross)
+        V('E7.T4-mirror', inst, 'Crossing::mirror maps the crossing type by %s%s; expected the type mirrored (%s) and the edges kept' % (cm, '' if T['crossing_mirror_ok'] else ' and changes the edges', m), where=w_cross)
     # T3
     r = T['resolve']
     for ct in ('X', 'Xm'):
